@@ -173,6 +173,7 @@ PROPS.update({
         assumptions=COMMON_ASSUME + ['f64 rounding of the accumulation is not modelled: values are compared with relative tolerance 1e-9'],
     ),
     'C06': dict(
+        extra_modules=['GraphrsModel.Props.C06Model'],
         gens=[('cen', 'small', 1500, 25000, 8), ('cen', 'parallel', 20, 200, 36)],
         spec_fields=[r'cc0:q', r'cc1:q'], model_fields=[r'build', r'cc0:q', r'cc1:q'],
         nontrivial=cen_nontrivial, hist=cen_hist, rule=CEN_RULE,
@@ -195,6 +196,7 @@ PROPS.update({
 
 PROPS.update({
     'C10': dict(
+        extra_modules=['GraphrsModel.Props.C10Model'],
         gens=[('comp', 'small', 2500, 40000, 10)],
         spec_fields=[r'ok\.cc', r'ok\.wcc', r'ok\.scc', r'ok\.ncc', r'ok\.num', r'ok\.bfs', r'ok\.eq'],
         model_fields=[r'build', r'cc', r'wcc', r'scc', r'ncc', r'num', r'eq'],
@@ -211,6 +213,7 @@ PROPS.update({
 
 PROPS.update({
     'C11': dict(
+        extra_modules=['GraphrsModel.Props.C11Model'],
         gens=[('clu', 'small', 2500, 40000, 7)],
         spec_fields=[r'tri', r'triS', r'gd', r'gdS', r'trans:q', r'clu:q', r'cluS:q', r'wclu:b', r'wcluS:b', r'avg1:b', r'avg0:b',
                      r'avgS:b', r'sq:q', r'sqS:q', r'ok\.unit'],
@@ -246,6 +249,7 @@ PROPS.update({
         assumptions=COMMON_ASSUME,
     ),
     'C13': dict(
+        extra_modules=['GraphrsModel.Props.C13Model'],
         gens=[('louv', 'random', 1500, 25000, 9), ('louv', 'ties', 500, 8000, 10)],
         spec_fields=[r'ok\.levels', r'ok\.nested', r'ok\.monotone', r'ok\.last'], model_fields=[r'build', r'parts'],
         nontrivial=lambda req, I: ',' in I.get('parts', ''),
